@@ -94,6 +94,28 @@ def check_sort(case):
                 b = "rank-wrong"
             raise Violation("rank", b, "costs %r: individual %d got front %r, true rank %r (all got=%r exp=%r)" % (
                 costs, i, got[i], exp[i], [got[k] for k in range(n)], exp))
+    # the sorter is called once per generation on lists that share objects: sorting the same objects again (other
+    # order) and then a sub-population of them must give the ranks of *that* list, nothing left over from before
+    with guard("rank"):
+        sel = TournamentSelector(params([(0.0, 1.0)]))
+        objs = []
+        for i in range(n):
+            ind = Individual([float(i)])
+            ind.costs_signed = list(costs[i])
+            objs.append(ind)
+        sel.fast_nondominated_sorting([objs[i] for i in case["order2"]])
+        sel.fast_nondominated_sorting(list(objs))
+        again = [o.features.get("front_number") for o in objs]
+        half = [i for i in case["order2"] if i % 2 == 0]
+        sel.fast_nondominated_sorting([objs[i] for i in half])
+        sub = [objs[i].features.get("front_number") for i in half]
+    if again != exp:
+        raise Violation("rank", "resort-same-objects", "sorting the same objects a second time gave %r, true ranks %r (%r)" % (
+            again, exp, costs))
+    exp_sub = O.pareto_ranks([costs[i] for i in half]) if half else []
+    if sub != exp_sub:
+        raise Violation("rank", "resort-subpopulation", "sorting a sub-population of already sorted objects gave %r, true "
+                        "ranks %r (costs %r)" % (sub, exp_sub, [costs[i] for i in half]))
     got2 = run(case["order2"])
     if any(got2[i] != got[i] for i in range(n)):
         raise Violation("rank", "order-dependent", "ranks differ between two input orders for %r: %r vs %r" % (
